@@ -138,6 +138,40 @@ Definition diagnose (c : ctx_table) : list (name * string * name) :=
   diag c "MinidumpContext::register_size is not size_of::<Register>() of this variant's type"%string
        (fun _ => plain_var (ct_md_size c) v_size) [ct_variant c].
 
+(* MinidumpContext::read's arms against the nine tables.  An arm is fine when the type it reads and the variant it wraps it
+   in are those of one table, the CPU constant it tests is the one named like the type, that constant survives from_flags
+   (inside the CPU mask, a defined bit), the struct size holds every integer field of the table, and each of its architecture
+   numbers selects this very arm (no earlier arm takes it); every table is chosen by some arm; no two arms test the same
+   constant *)
+Fixpoint zs_eqb (a b : list Z) : bool :=
+  match a, b with
+  | [], [] => true
+  | x :: a', y :: b' => (x =? y) && zs_eqb a' b'
+  | _, _ => false
+  end.
+Definition read_arm_eqb (a b : read_arm) : bool :=
+  zs_eqb (ra_archs a) (ra_archs b) && name_eqb (ra_type a) (ra_type b) && name_eqb (ra_variant a) (ra_variant b) &&
+  name_eqb (ra_flag_name a) (ra_flag_name b) && (ra_flag a =? ra_flag b) && (ra_size a =? ra_size b).
+Definition table_of_arm (cs : list ctx_table) (a : read_arm) : option ctx_table :=
+  find (fun c => name_eqb (ra_type a) (ct_name c) && name_eqb (ra_variant a) (ct_variant c)) cs.
+Definition field_inside (size : Z) (f : name * Z * Z * Z) : bool :=
+  match f with (_, w, n, off) => (0 <=? off) && (off + (w / 8) * (if n <? 0 then 1 else n) <=? size) end.
+Definition read_arm_ok (cs : list ctx_table) (arms : list read_arm) (mask allbits : Z) (a : read_arm) : bool :=
+  match table_of_arm cs a with
+  | Some c => forallb (field_inside (ra_size a)) (ct_fields c)
+  | None => false
+  end &&
+  name_eqb (ra_flag_name a) (ra_type a) && (cpu_from_flags mask allbits (ra_flag a) =? ra_flag a) && (0 <? ra_flag a) &&
+  negb (match ra_archs a with [] => true | _ => false end) &&
+  forallb (fun arch => match find_read_arm arms arch with
+                       | Some b => read_arm_eqb b a
+                       | None => false
+                       end) (ra_archs a) &&
+  (Z.of_nat (length (filter (fun b => ra_flag b =? ra_flag a) arms)) =? 1).
+Definition read_ok (cs : list ctx_table) (arms : list read_arm) (mask allbits : Z) : bool :=
+  forallb (read_arm_ok cs arms mask allbits) arms &&
+  forallb (fun c => existsb (fun a => name_eqb (ra_type a) (ct_name c) && name_eqb (ra_variant a) (ct_variant c)) arms) cs.
+
 (* for reading a diagnosis: names back to text *)
 Definition show (n : name) : string :=
   fold_right (fun z acc => String (Ascii.ascii_of_nat (Z.to_nat z)) acc) EmptyString n.
